@@ -648,6 +648,10 @@ class Engine:
                 cv = fr.sub.get("const " + str(k["uneval"]))
                 if isinstance(cv, int) and not isinstance(cv, bool):
                     k = dict(k, int=str(cv))
+                elif re.match(r"^[A-Z_][A-Z0-9_]*$", str(k["uneval"])) and ("const " + str(k["uneval"])) in (fr.body.get("generics") or []) and T.int_info(ti):
+                    # analysed stand-alone: the parameter is one unknown value, the same at every use
+                    ii_ = T.int_info(ti)
+                    return self.named_int("const:%s" % k["uneval"], ii_[0], ii_[1])
         if "int" in k:
             if kind == "bool":
                 return TRUE if int(k["int"]) else FALSE
